@@ -17,6 +17,7 @@ import (
 	"bytes"
 	"fmt"
 	"math/rand"
+	"net"
 	"os"
 	"reflect"
 	"sort"
@@ -563,44 +564,63 @@ func (rp *replayer) lists(in *inst, vecs []*vec, hasName, hasVal bool) {
 		if v.Kind != "list" || v.Names != hasName {
 			continue
 		}
-		list := make([]dns.RR, len(v.Q))
-		for i, s := range v.Q {
-			list[i] = in.symbol(s, hasName, hasVal)
-			if len(v.Owners) == 3 { // the owner spellings of the vector: r / other case / another owner
-				list[i].Header().Name = v.Owners[map[int]int{3: 1, 5: 2}[s]].String()
+		for alias := 0; alias < 3; alias++ {
+			// alias 0: every occurrence of a symbol is a Go value of its own; 1: the occurrences of a
+			// symbol are THE SAME value (pointer) at several positions; 2: mixed (symbols r and r2 aliased)
+			if alias > 0 && (v.Shape > 1 && !hx.Thorough() || len(v.Q) < 2) {
+				continue
 			}
-		}
-		orig := append([]dns.RR(nil), list...)
-		out := dns.Dedup(list, nil)
-		rp.sum.Evaluations++
-		rp.seen[kn+"/dedup/"+strconv.Itoa(len(v.Q))+">"+strconv.Itoa(len(out))] = true
-		bad := ""
-		if len(out) != len(v.Keep) {
-			bad = "count"
-		} else {
-			for k := range out {
-				if out[k] != orig[v.Keep[k]-1] {
-					bad = "order-or-identity"
-					break
+			list := make([]dns.RR, len(v.Q))
+			shared := map[int]dns.RR{}
+			for i, s := range v.Q {
+				if r, ok := shared[s]; ok && (alias == 1 || alias == 2 && (s == 1 || s == 5)) {
+					list[i] = r
+					continue
 				}
-				if out[k].Header().Ttl != uint32(v.Ttls[k]) {
-					bad = "ttl"
-					break
+				list[i] = in.symbol(s, hasName, hasVal)
+				if len(v.Owners) == 3 { // the owner spellings of the vector: r / other case / another owner
+					list[i].Header().Name = v.Owners[map[int]int{3: 1, 5: 2}[s]].String()
 				}
+				shared[s] = list[i]
 			}
-		}
-		if bad != "" {
-			var got []string
-			for _, r := range out {
-				idx := -1
-				for i := range orig {
-					if orig[i] == r {
-						idx = i + 1
+			orig := append([]dns.RR(nil), list...)
+			out := dns.Dedup(list, nil)
+			rp.sum.Evaluations++
+			rp.seen[kn+"/dedup/"+strconv.Itoa(len(v.Q))+">"+strconv.Itoa(len(out))] = true
+			bad := ""
+			if len(out) != len(v.Keep) {
+				bad = "count"
+			} else {
+				for k := range out {
+					if out[k] != orig[v.Keep[k]-1] {
+						bad = "order-or-identity"
+						break
+					}
+					if out[k].Header().Ttl != uint32(v.Ttls[k]) {
+						bad = "ttl"
+						break
 					}
 				}
-				got = append(got, fmt.Sprintf("%d/ttl=%d", idx, r.Header().Ttl))
 			}
-			rp.sum.Mis("dedup/"+bad+":"+kn, fmt.Sprintf("%s: Dedup(%v) = %v, Dup.tla keeps %v with TTLs %v", in.kind.Name, v.Q, got, v.Keep, v.Ttls), rp.caseOf(in, v))
+			if bad != "" {
+				var got []string
+				for _, r := range out {
+					idx := -1
+					for i := range orig {
+						if orig[i] == r {
+							idx = i + 1
+							break
+						}
+					}
+					got = append(got, fmt.Sprintf("%d/ttl=%d", idx, r.Header().Ttl))
+				}
+				how := ""
+				if alias > 0 {
+					how = ":same-value-repeated"
+				}
+				c := rp.caseOf(in, v)
+				rp.sum.Mis("dedup/"+bad+how+":"+kn, fmt.Sprintf("%s: Dedup(%v) = %v, Dup.tla keeps %v with TTLs %v (aliasing mode %d)", in.kind.Name, v.Q, got, v.Keep, v.Ttls, alias), c)
+			}
 		}
 	}
 }
@@ -990,6 +1010,12 @@ func record(out string, n int) {
 		list := make([]dns.RR, m)
 		var texts []textRec
 		for j := range list {
+			if j > 0 && rng.Intn(5) == 0 { // the very same value once more
+				k := rng.Intn(j)
+				list[j] = list[k]
+				texts = append(texts, texts[k])
+				continue
+			}
 			a := randAbs(p, rng)
 			a[0] = 1
 			rr := in.make(a)
@@ -1008,8 +1034,9 @@ func record(out string, n int) {
 		for _, r := range res {
 			idx := 0
 			for j := range orig {
-				if orig[j] == r {
+				if orig[j] == r { // a value that occurs several times is named by its first position
 					idx = j + 1
+					break
 				}
 			}
 			e.Out = append(e.Out, outRec{I: idx, Ttl: limbs(r.Header().Ttl)})
@@ -1028,6 +1055,123 @@ func record(out string, n int) {
 // sweep overwrites, for every kind, every RDATA octet outside the embedded names with 0, 0xff
 // and its value with the lowest bit flipped; every variant the library decodes is compared
 // with a second decoding of the same octets (identical wire) and with the unmodified record.
+var ipType = reflect.TypeOf(net.IP{})
+
+// addrSweep: for every address-valued cell of the kind, spellings that a lossy rendering
+// cannot tell apart -- an IPv4 address in 4 and in 16 octets (IPv4-mapped), with the prefix
+// length / family selector / gateway type following or not.  Whether two spellings are
+// the same record is decided by the specification on their packed octets; IsDuplicate is
+// observed on the records as built and on their decodings.
+func addrSweep(k rw.Kind, never bool, w *hx.Writer, sum *hx.Summary, seen map[string]bool) {
+	if k.Type == dns.TypeOPT {
+		return
+	}
+	base := k.Build()
+	_, cells := rw.WalkCells(base)
+	var paths []string
+	for _, c := range cells {
+		if c.Kind == reflect.Slice && c.V.Type() == ipType && !strings.HasSuffix(c.Path, "[append]") {
+			paths = append(paths, c.Path)
+		}
+	}
+	type tf struct {
+		name string
+		f    func(rr dns.RR, c *rw.Cell) bool
+	}
+	mapped := func(ip net.IP) net.IP {
+		return append(net.IP{0, 0, 0, 0, 0, 0, 0, 0, 0, 0, 0xff, 0xff}, ip...)
+	}
+	maskOf := func(rr dns.RR, c *rw.Cell) *rw.Cell { // the mask next to an APL address
+		if !strings.HasSuffix(c.Path, ".Network.IP") {
+			return nil
+		}
+		return cellAt(rr, strings.TrimSuffix(c.Path, ".IP")+".Mask")
+	}
+	tfs := []tf{
+		{"4-as-16", func(rr dns.RR, c *rw.Cell) bool { // the same IPv4 address spelled in 16 octets
+			ip := c.V.Interface().(net.IP)
+			if len(ip) != 4 {
+				return false
+			}
+			c.V.Set(reflect.ValueOf(mapped(ip)))
+			return true
+		}},
+		{"4-as-mapped-v6", func(rr dns.RR, c *rw.Cell) bool { // ... and everything that says "IPv6" following: prefix + 96, gateway type 2
+			ip := c.V.Interface().(net.IP)
+			if len(ip) != 4 {
+				return false
+			}
+			c.V.Set(reflect.ValueOf(mapped(ip)))
+			if m := maskOf(rr, c); m != nil {
+				ones, _ := m.V.Interface().(net.IPMask).Size()
+				m.V.Set(reflect.ValueOf(net.CIDRMask(ones+96, 128)))
+				return true
+			}
+			switch x := rr.(type) {
+			case *dns.IPSECKEY:
+				x.GatewayType = dns.IPSECGatewayIPv6
+				return true
+			case *dns.AMTRELAY:
+				x.GatewayType = x.GatewayType&0x80 | dns.IPSECGatewayIPv6
+				return true
+			}
+			return false
+		}},
+		{"mask-4-as-16", func(rr dns.RR, c *rw.Cell) bool { // only the mask in the long spelling
+			m := maskOf(rr, c)
+			if m == nil || len(m.V.Interface().(net.IPMask)) != 4 {
+				return false
+			}
+			ones, _ := m.V.Interface().(net.IPMask).Size()
+			m.V.Set(reflect.ValueOf(net.CIDRMask(ones+96, 128)))
+			return true
+		}},
+	}
+	describe := func(rr dns.RR) (dns.RR, *wireRec) {
+		wb, err := packRR(rr)
+		if err != nil {
+			return nil, nil
+		}
+		u, off, err := dns.UnpackRR(wb, 0)
+		if err != nil || off != len(wb) {
+			return nil, nil
+		}
+		ow, rd := rdataOf(wb)
+		h := u.Header()
+		return u, &wireRec{T: int(h.Rrtype), C: int(h.Class), Ow: hx.FromBytes(ow), Rd: hx.FromBytes(rd), Spans: spans(rr, rd)}
+	}
+	ua, wa := describe(base)
+	if ua == nil {
+		return
+	}
+	for _, p := range paths {
+		for _, t := range tfs {
+			b := k.Build()
+			if !t.f(b, cellAt(b, p)) {
+				continue
+			}
+			ub, wb := describe(b)
+			if ub == nil {
+				continue
+			}
+			ub2, _ := describe(b)
+			for _, mode := range []string{"as-built", "from-the-wire"} {
+				x, y := base, b
+				if mode == "from-the-wire" {
+					x, y = ua, ub
+				}
+				e := &event{Ev: "pair", K: k.Name, Rel: "address-" + t.name + ":" + mode, A: wa, B: wb,
+					Dup: dns.IsDuplicate(x, y), RDup: dns.IsDuplicate(y, x), Self: dns.IsDuplicate(ub, ub2), Never: never, Repack: true,
+					Mut: fieldOf(p)}
+				e.I = w.N + 1
+				w.Emit(e)
+				sum.Evaluations++
+				seen[k.Name+"/"+e.Rel+"/"+strconv.FormatBool(e.Dup)] = true
+			}
+		}
+	}
+}
+
 func neverDup(k rw.Kind) bool {
 	w, err := packRR(k.Build())
 	if err != nil {
@@ -1053,6 +1197,7 @@ func sweep(out string, shard, nshards int) {
 		}
 		base := k.Build()
 		never := neverDup(k)
+		addrSweep(k, never, w, sum, seen)
 		wb, err := packRR(base)
 		if err != nil {
 			continue
